@@ -209,6 +209,49 @@ Definition init_mach (st0 : keymap) (rs : list (option (list (bytes * Z)))) : ma
 Definition reg_after (st0 : keymap) (rs : list (option (list (bytes * Z)))) : keymap :=
   fold_left (fun st r => refresh r st) rs st0.
 
+(* ---- fetches in flight.  updateKeys is: GET the JWK set (the endpoint answers with the set it publishes
+   when the request arrives), build the map, publish it with one write of the register.  A response can be
+   slow, so "served" and "installed" are two events; the issuer may rotate its set in between.  Key sets
+   are numbered by rotation (version 0, 1, 2, ...).  In the code the ONLY caller of updateKeys after
+   NewHook is the background loop: one fetcher (number 0), hence at most one fetch in flight.
+   f_srv / f_ret are ghost fields: the newest version any fetch was served / any completed fetch carried. *)
+Inductive fev :=
+| FBegin (w : nat)       (* fetcher w's request arrives at the endpoint (ignored while w has one in flight) *)
+| FEnd (w : nat)         (* fetcher w's response arrives: the register is overwritten *)
+| FRotate.               (* the issuer publishes the next version *)
+Record fstate := { f_cur : nat; f_reg : nat; f_pend : list (nat * nat); f_srv : nat; f_ret : nat }.
+Fixpoint plook (w : nat) (l : list (nat * nat)) : option nat :=
+  match l with [] => None | (w', v) :: r => if Nat.eqb w w' then Some v else plook w r end.
+Definition pdrop (w : nat) (l : list (nat * nat)) : list (nat * nat) :=
+  List.filter (fun x => negb (Nat.eqb w (fst x))) l.
+Definition fstep (s : fstate) (e : fev) : fstate :=
+  match e with
+  | FBegin w =>
+    match plook w (f_pend s) with
+    | Some _ => s
+    | None => {| f_cur := f_cur s; f_reg := f_reg s; f_pend := (w, f_cur s) :: f_pend s;
+                 f_srv := Nat.max (f_srv s) (f_cur s); f_ret := f_ret s |}
+    end
+  | FEnd w =>
+    match plook w (f_pend s) with
+    | Some v => {| f_cur := f_cur s; f_reg := v; f_pend := pdrop w (f_pend s);
+                   f_srv := f_srv s; f_ret := Nat.max (f_ret s) v |}
+    | None => s
+    end
+  | FRotate => {| f_cur := S (f_cur s); f_reg := f_reg s; f_pend := f_pend s; f_srv := f_srv s; f_ret := f_ret s |}
+  end.
+(* the states after each event *)
+Fixpoint ftrace (s : fstate) (evs : list fev) : list fstate :=
+  match evs with [] => [] | e :: r => fstep s e :: ftrace (fstep s e) r end.
+Definition finit (v : nat) : fstate := {| f_cur := v; f_reg := v; f_pend := []; f_srv := v; f_ret := v |}.
+Definition only_fetcher (w : nat) (e : fev) : bool :=
+  match e with FBegin w' | FEnd w' => Nat.eqb w w' | FRotate => true end.
+Fixpoint nondecreasing (l : list nat) : bool :=
+  match l with
+  | a :: ((b :: _) as r) => Nat.leb a b && nondecreasing r
+  | _ => true
+  end.
+
 (* ---- single-aspect changes of a token (used to state single_change_rejects) *)
 Definition with_structure b t := {| structure_ok := b; alg := alg t; kid := kid t; iss := iss t; aud := aud t;
   ih_claim := ih_claim t; exp := exp t; nbf := nbf t; sig_ok_under := sig_ok_under t |}.
